@@ -57,6 +57,10 @@ impl Matcher for Scripted {
 
 /// compress `data` in blocks of `slice` bytes with the given plan per block; returns None (ok) or what went wrong
 pub fn roundtrip(data: &[u8], slice: usize, plans: Vec<Parse>, window: u64) -> Option<String> {
+    roundtrip_frame(data, slice, plans, window).0
+}
+
+pub fn roundtrip_frame(data: &[u8], slice: usize, plans: Vec<Parse>, window: u64) -> (Option<String>, Vec<u8>) {
     let m = Scripted { hist: vec![], last: vec![], plans: Rc::new(RefCell::new(plans)), blk: 0, slice, window };
     let d2 = data.to_vec();
     let res = std::panic::catch_unwind(std::panic::AssertUnwindSafe(move || {
@@ -69,7 +73,7 @@ pub fn roundtrip(data: &[u8], slice: usize, plans: Vec<Parse>, window: u64) -> O
         out
     }));
     match res {
-        Err(p) => Some(format!("compress() panicked: {}", panic_msg(p))),
+        Err(p) => (Some(format!("compress() panicked: {}", panic_msg(p))), vec![]),
         Ok(out) => {
             let r = zstd::decode_all(&out[..]);
             let o = {
@@ -79,13 +83,14 @@ pub fn roundtrip(data: &[u8], slice: usize, plans: Vec<Parse>, window: u64) -> O
             };
             let ref_ok = r.as_ref().map(|v| v == data).unwrap_or(false);
             let our_ok = o.as_ref().map(|v| v == data).unwrap_or(false);
-            if ref_ok && our_ok {
+            let verdict = if ref_ok && our_ok {
                 None
             } else {
                 Some(format!("the frame does not decode to the input: libzstd {} ruzstd {}",
                     if ref_ok { "ok".into() } else { r.err().map(|e| e.to_string()).unwrap_or("wrong bytes".into()) },
                     if our_ok { "ok".into() } else { o.err().map(|e| e.to_string()).unwrap_or("wrong bytes".into()) }))
-            }
+            };
+            (verdict, out)
         }
     }
 }
@@ -312,4 +317,146 @@ pub fn c16tiny(args: &[String]) {
     }
     let first: Vec<Value> = sig.iter().map(|(k, v)| json!({"signature": k, "count": v.0, "example": v.1})).collect();
     write_json(&args[3], &json!({"tiny_parses": cases, "large_parses": big, "mismatches": bad, "first": first, "rows": rows}));
+}
+
+/// Where the sequences section of a compressed block starts (after the literals section), independent parser.
+fn after_literals(b: &[u8]) -> Option<usize> {
+    let b0 = *b.first()? as usize;
+    let (ty, sf) = (b0 & 3, (b0 >> 2) & 3);
+    if ty < 2 {
+        let (hl, regen) = match sf {
+            0 | 2 => (1, b0 >> 3),
+            1 => (2, (b0 >> 4) + ((*b.get(1)? as usize) << 4)),
+            _ => (3, (b0 >> 4) + ((*b.get(1)? as usize) << 4) + ((*b.get(2)? as usize) << 12)),
+        };
+        Some(hl + if ty == 0 { regen } else { 1 })
+    } else {
+        let v = |n: usize| -> Option<u64> {
+            let mut x = 0u64;
+            for i in 0..n {
+                x |= (*b.get(i)? as u64) << (8 * i);
+            }
+            Some(x)
+        };
+        let (hl, comp) = match sf {
+            0 | 1 => (3, ((v(3)? >> 14) & 0x3FF) as usize),
+            2 => (4, ((v(4)? >> 18) & 0x3FFF) as usize),
+            _ => (5, ((v(5)? >> 22) & 0x3FFFF) as usize),
+        };
+        Some(hl + comp)
+    }
+}
+
+/// seqhist <seed> <hist_classes.ndjson> <rows.ndjson> <report.json> [quick|thorough]
+/// One valid parse per code-histogram class of ParseClasses.tla (HistRows): the field under test gets exactly the class's
+/// histogram of codes; the frame must decode with both decoders, and the table descriptions the compressor wrote for the
+/// block are dumped as rows for FSERows.tla (OkWritten: limits of RFC 8878 3.1.1.3.2.1, every used code encodable).
+pub fn seqhist(args: &[String]) {
+    use crate::frames::{ll_code, ml_code, walk_frame};
+    use rand::seq::SliceRandom;
+    quiet_panics();
+    let seed: u64 = args[0].parse().unwrap();
+    let f = std::io::BufReader::new(std::fs::File::open(&args[1]).unwrap());
+    let mut w = std::io::BufWriter::new(std::fs::File::create(&args[2]).unwrap());
+    let mut rng = SmallRng::seed_from_u64(seed ^ 0x1612);
+    // first value of every literal-length / match-length code, and how many values the code covers
+    let mut ll_first: Vec<(u32, u32)> = vec![];
+    for v in 0..=131071u32 {
+        let (c, _, bits) = ll_code(v);
+        if c as usize == ll_first.len() {
+            ll_first.push((v, 1u32 << bits));
+        }
+    }
+    let mut ml_first: Vec<(u32, u32)> = vec![];
+    for v in 3..=131074u32 {
+        let (c, _, bits) = ml_code(v);
+        if c as usize == ml_first.len() {
+            ml_first.push((v, 1u32 << bits));
+        }
+    }
+    let (mut n, mut bad, mut skipped, mut rows, mut fse_tables, mut not_compressed) = (0u64, 0u64, 0u64, 0u64, 0u64, 0u64);
+    let mut mism: Vec<Value> = vec![];
+    let mut samples: Vec<Value> = vec![];
+    let hist: Vec<u8> = (0..2 * BLOCK).map(|_| rng.gen()).collect();
+    let quick = args.get(4).map(|t| t == "quick").unwrap_or(false);
+    let mut li = 0usize;
+    for line in f.lines() {
+        li += 1;
+        let c: Value = serde_json::from_str(&line.unwrap()).unwrap();
+        let field = c["field"].as_str().unwrap();
+        let h: Vec<usize> = c["hist"].as_array().unwrap().iter().map(|x| x.as_u64().unwrap() as usize).collect();
+        let mut codes: Vec<usize> = vec![];
+        for (code, cnt) in h.iter().enumerate() {
+            codes.extend(std::iter::repeat(code).take(*cnt));
+        }
+        codes.shuffle(&mut rng);
+        let mut plan: Parse = vec![];
+        let mut used = 0usize;
+        let (mut cl, mut co, mut cm) = (std::collections::BTreeSet::new(), std::collections::BTreeSet::new(), std::collections::BTreeSet::new());
+        for code in &codes {
+            let llc = if field == "ll" { *code } else { rng.gen_range(0..4) };
+            let mlc = if field == "ml" { *code } else { rng.gen_range(0..4) };
+            let ofc = if field == "of" { *code } else { rng.gen_range(2..5) };
+            let ll = (ll_first[llc].0 + rng.gen_range(0..ll_first[llc].1)) as usize;
+            let ml = (ml_first[mlc].0 + rng.gen_range(0..ml_first[mlc].1)) as usize;
+            let ofv: usize = (1usize << ofc) + rng.gen_range(0..(1usize << ofc));
+            plan.push((ll, ofv - 3, ml));
+            used += ll + ml;
+            cl.insert(llc);
+            co.insert(ofc);
+            cm.insert(mlc);
+        }
+        if used > BLOCK {
+            skipped += 1;
+            continue;
+        }
+        n += 1;
+        let alphabet: Vec<u8> = (0..=255u8).collect();
+        let tail = (BLOCK - used).min(100);
+        let block = synth(&hist, &plan, tail, &alphabet, &mut rng);
+        let mut data = hist.clone();
+        data.extend_from_slice(&block);
+        let (e, frame) = roundtrip_frame(&data, BLOCK, vec![vec![], vec![], plan.clone()], 1 << 20);
+        if let Some(e) = e {
+            bad += 1;
+            if mism.len() < 12 {
+                mism.push(json!({"class": {"field": field, "k": c["k"], "c": c["c"], "single": c["single"], "place": c["place"], "unclamped": c["unclamped"], "al": c["al"]},
+                    "block_len": block.len(), "first_sequences": plan[..plan.len().min(5)].to_vec(), "error": e}));
+            }
+        } else if samples.len() < 2 {
+            samples.push(json!({"class": {"field": field, "k": c["k"], "c": c["c"], "single": c["single"], "place": c["place"]}, "block_len": block.len(), "first_sequences": plan[..plan.len().min(4)].to_vec()}));
+        }
+        // the table descriptions written for the third block
+        if let Ok(lay) = walk_frame(&frame) {
+            if let Some(b) = lay["blocks"].as_array().and_then(|a| a.get(2)) {
+                if b["type"] == 2 {
+                    let at = b["at"].as_u64().unwrap() as usize + 3;
+                    let body = &frame[at..at + b["c"].as_u64().unwrap() as usize];
+                    if let Some(p) = after_literals(body) {
+                        let b0 = body[p] as usize;
+                        let cnt = if b0 < 128 { 1 } else if b0 < 255 { 2 } else { 3 };
+                        let modes = body[p + cnt];
+                        let rest = &body[p + cnt + 1..];
+                        let m = [(modes >> 6) & 3, (modes >> 4) & 3, (modes >> 2) & 3];
+                        fse_tables += m.iter().filter(|x| **x == 2).count() as u64;
+                        // every class is judged by the two decoders; TLC reads the descriptions of the classes that reach the
+                        // clamp and (quick tier) of every 12th other class
+                        let maxlog = if field == "of" { 8 } else { 9 };
+                        if quick && c["unclamped"].as_u64().unwrap() <= maxlog && li % 12 != 0 {
+                            continue;
+                        }
+                        serde_json::to_writer(&mut w, &json!({"k": "written", "field": field, "class_al": c["al"], "unclamped": c["unclamped"], "modes": m,
+                            "bytes": rest[..rest.len().min(150)].to_vec(), "ll_codes": cl, "of_codes": co, "ml_codes": cm})).unwrap();
+                        w.write_all(b"\n").unwrap();
+                        rows += 1;
+                    }
+                } else {
+                    not_compressed += 1;
+                }
+            }
+        }
+    }
+    w.flush().unwrap();
+    write_json(&args[3], &json!({"classes_run": n, "skipped_infeasible": skipped, "mismatches": bad, "first": mism, "samples": samples, "rows": rows,
+        "fse_tables_written": fse_tables, "block_not_compressed": not_compressed}));
 }
